@@ -653,6 +653,7 @@ def _execute(case, rand):
                     continue
                 if any(x.kind == 'undo' and x.tid > new_stop for x in A.model.txns):
                     out.label('undo-record-across-pack-time' + ('-gc' if gc else ''))
+                absent_before = [o for o in sorted(B.model.oids()) if q_load(A.storage, o) == 'POSKeyError']
                 before_bytes = file_hash(da) if base_kind == 'fs' else None
                 before_listing = file_listing(da) if base_kind == 'fs' else None
                 n_before = revision_count(A.storage)
@@ -729,6 +730,16 @@ def _execute(case, rand):
             else:
                 out.evals += compare_protected(A.storage, B.storage, B.model, stop, gc_used, out,
                                                'after %s' % k, caps)
+                # pack never brings anything back: an object that did not load before the pack (deleted, un-created) does
+                # not load after it (the reverse - garbage gone - is pack's business)
+                for oid in (absent_before if k == 'pack' else ()):
+                    if q_load(A.storage, oid) != 'POSKeyError':
+                        out.fail((PROPERTY, 'resurrected-object', 'after-pack'),
+                                 'object %r did not exist before this pack (deleted or un-created) and loads after it: %r' % (
+                                     oid, q_load(A.storage, oid)))
+                        break
+                if out.failures:
+                    break
                 # no dangling references in the current state
                 for oid in sorted(A.cur_reachable() if False else GraphRunner.reachable(None, B.model.state_at())):
                     if q_load(A.storage, oid) == 'POSKeyError':
